@@ -306,6 +306,10 @@ class Program:
                 for t in b.targets:
                     if isinstance(t, ast.Name):
                         ci.attrs[t.id] = b.value
+                    elif isinstance(t, (ast.Tuple, ast.List)) and isinstance(b.value, (ast.Tuple, ast.List)) and len(t.elts) == len(b.value.elts):
+                        for tn, tv in zip(t.elts, b.value.elts):       # A, B = 'a', 'b' in a class body
+                            if isinstance(tn, ast.Name):
+                                ci.attrs[tn.id] = tv
             elif isinstance(b, ast.AnnAssign) and isinstance(b.target, ast.Name) and b.value is not None:
                 ci.attrs[b.target.id] = b.value
         m.classes[node.name] = ci
@@ -323,13 +327,22 @@ class Program:
                 c.ext_bases.append(ast.unparse(b))
 
     def _linearise(self, c: ClassInfo, seen) -> List[ClassInfo]:
+        """C3 linearisation (Python's method resolution order), so that mixin diamonds resolve as they do at run time."""
         if c in seen:
             raise AnalysisError(f'inheritance cycle at {c.name}')
+        seqs = [self._linearise(b, seen + (c,)) for b in c.bases] + [list(c.bases)]
+        seqs = [list(s) for s in seqs if s]
         out = [c]
-        for b in c.bases:
-            for x in self._linearise(b, seen + (c,)):
-                if x not in out:
-                    out.append(x)
+        while seqs:
+            for s in seqs:
+                cand = s[0]
+                if not any(cand in t[1:] for t in seqs):
+                    break
+            else:
+                raise AnalysisError(f'inconsistent method resolution order for {c.name}')
+            out.append(cand)
+            seqs = [[x for x in s if x is not cand] for s in seqs]
+            seqs = [s for s in seqs if s]
         return out
 
     # -------------------------------------------------------------- resolve
